@@ -262,7 +262,7 @@ def leg2(ctx, bdir):
         ("jt", [3, 5, 8, 12, 15, 20, 30, 40], 4, 28 if q else 400, (0,), (0, 4), ["jtab", "jtabloop"]),
         # register SWAPS: few 32-bit and many 64-bit registers (TypeIds kInt64/kUInt64/kIntPtr/kUIntPtr by type salt) with
         # non-zero upper halves in small loops / diamonds whose bodies pin values to CL, rdx:rax, argument and return registers
-        ("swap", [3, 4], 3, 40 if q else 400, (0,), (5, 6, 7, 8, 9), ["swapl", "swapl", "swapd"]),
+        ("swap", [3, 4], 3, 56 if q else 400, (0,), (5, 6, 7, 8, 9), ["swapl", "swapl", "swapd"]),
     ]
     if not q:
         plan.append(("vhi", [48, 64, 96, 160, 200], 6, 120, (0, 24), (0, 6), ALL_SK))
